@@ -306,12 +306,23 @@ parse_offsets(const std::string& text, std::vector<EmittedOffsets>& out) {
                 ++p;
                 return v.empty() ? "empty array" : "";
             }
+            // an integer literal as the C++ compiler reads it: decimal,
+            // 0x... hexadecimal (the generator's stream may have been left
+            // in std::hex << std::showbase by encode_dispatch_data), or -
+            // with a leading 0 - octal
             std::size_t q = p;
-            while (q < s.size() && std::isdigit((unsigned char)s[q]))
+            while (q < s.size() && std::isalnum((unsigned char)s[q]))
                 ++q;
-            if (q == p)
-                return "expected a decimal constant";
-            v.push_back(std::strtoull(s.substr(p, q - p).c_str(), nullptr, 10));
+            if (q == p || !std::isdigit((unsigned char)s[p]))
+                return "expected an integer constant";
+            {
+                std::string tok = s.substr(p, q - p);
+                char* end = nullptr;
+                unsigned long long val = std::strtoull(tok.c_str(), &end, 0);
+                if (!end || *end)
+                    return "not an integer constant: " + tok;
+                v.push_back(val);
+            }
             p = q;
             while (p < s.size() && s[p] == ' ')
                 ++p;
